@@ -172,8 +172,15 @@ class ConcreteCtx:
         self.claim(name, self.eq(p[0], q[0]) and self.eq(p[1], q[1]),
                    lambda: "(%r,%r) != (%r,%r)" % (float(p[0]), float(p[1]), float(q[0]), float(q[1])))
 
+    def option(self, name, value):
+        pass
+
     def note(self, s):
         self.notes.append(s)
+
+    def on_witness(self, name, fn):
+        """run fn(concrete ctx) on this path's witness; an exception is a violation candidate"""
+        fn(self)
 
     def unsupported(self, why):
         raise AssumptionNotMet("unsupported in model: " + why)
